@@ -37,7 +37,8 @@ use domain::net::server::middleware::edns::EdnsMiddlewareSvc;
 use domain::net::server::middleware::mandatory::MandatoryMiddlewareSvc;
 use domain::net::server::service::{CallResult, Service, ServiceError, ServiceResult};
 use domain::net::server::sock::{AsyncAccept, AsyncDgramSock};
-use domain::net::server::stream::StreamServer;
+use domain::net::server::stream::{self, StreamServer};
+use domain::net::server::ConnectionConfig;
 use domain::net::server::util::mk_builder_for_target;
 use dv_harness::*;
 use futures_util::stream::{Stream, StreamExt};
@@ -339,8 +340,9 @@ impl AsyncDgramSock for MockSock {
 #[derive(Default)]
 struct MockListener { q: Mutex<VecDeque<(DuplexStream, SocketAddr)>>, waker: Mutex<Option<std::task::Waker>> }
 impl MockListener {
-    fn connect(&self, port: u16) -> DuplexStream {
-        let (client, server) = tokio::io::duplex(1 << 20);
+    fn connect(&self, port: u16) -> DuplexStream { self.connect_buf(port, 1 << 20) }
+    fn connect_buf(&self, port: u16, buf: usize) -> DuplexStream {
+        let (client, server) = tokio::io::duplex(buf);
         self.q.lock().unwrap().push_back((server, format!("192.0.2.9:{}", port).parse().unwrap()));
         if let Some(w) = self.waker.lock().unwrap().take() { w.wake(); }
         client
@@ -658,7 +660,21 @@ fn main() {
             Rec::Count(k) => out.count(k),
         }
     }
-    out.finish(&[]);
+    // ---- slow reader against a one-slot response queue (real time, ~4 s)
+    let slow: &[(usize, u64, u64, u64)] = if a.thorough { &[(24, 150, 2000, 500), (16, 250, 2000, 300)] } else { &[(24, 150, 2000, 500)] };
+    let mut slow_secs = 0.0;
+    for &(n, pause, wt, delay) in slow {
+        idx += 1;
+        if !out.wants(idx) { continue; }
+        let case = format!("stream slow reader: {} pipelined requests, max_queued_responses=1, response_write_timeout={}ms, service delay {}ms, client reads one response per {}ms through a 16-octet pipe", n, wt, delay, pause);
+        out.begin(&case);
+        let (answered, closed, frames, secs) = run_slow_reader(n, pause, wt, delay);
+        slow_secs += secs;
+        out.oracle_case(&case, true, "stream_slow_reader");
+        capped(&mut out, &mut per_class, answered == n && frames == n && !closed, "stream_response_dropped_slow_reader", &case,
+            &format!("{} of {} requests answered, {} frames, closed={}, {:.1}s", answered, n, frames, closed, secs));
+    }
+    out.finish(&[("slow_reader_seconds", format!("{:.2}", slow_secs))]);
 }
 
 fn capped(out: &mut Out, per_class: &mut HashMap<&'static str, u32>, ok: bool, class: &'static str, case: &str, detail: &str) {
@@ -844,6 +860,61 @@ async fn run_dgram(recs: &mut Vec<Rec>, r: &mut Rng, rounds: u64, idx: &mut u64,
         let _ = srv.shutdown();
         settle(5).await;
     }
+}
+
+/// Slow reader (REAL time, own runtime: the wait-for-a-queue-slot loop yields
+/// instead of sleeping, so virtual time would never advance).  A response queue
+/// of one slot, `n` pipelined requests whose responses become ready together, a
+/// client that reads one response every `pause_ms` through a 16-octet pipe: the
+/// last responses wait about n * pause_ms for a slot, far longer than the write
+/// timeout `wt_ms`, while a single write takes about pause_ms (margin wt/pause).
+/// Every request must still get its response and the connection must stay up.
+fn run_slow_reader(n: usize, pause_ms: u64, wt_ms: u64, delay_ms: u64) -> (usize, bool, usize, f64) {
+    let rt = tokio::runtime::Builder::new_current_thread().enable_time().build().unwrap();
+    rt.block_on(async move {
+        let t0 = std::time::Instant::now();
+        let sh = Shared::default();
+        let mut cc = ConnectionConfig::new();
+        cc.set_max_queued_responses(1);
+        cc.set_response_write_timeout(Duration::from_millis(wt_ms));
+        let mut cfg = stream::Config::new();
+        cfg.set_connection_config(cc);
+        let srv = Arc::new(StreamServer::with_config(MockListener::default(), VecBufSource, stack(&sh), cfg));
+        let listener = srv.source();
+        let s2 = srv.clone();
+        let _h = tokio::spawn(async move { s2.run().await });
+        for j in 0..n { sh.table.lock().unwrap().insert(0x6800 + j as u16, Beh { delay_ms, items: vec![Ok(Resp::small())] }); }
+        let client = listener.connect_buf(6000, 16);
+        let (mut rd, mut wr) = tokio::io::split(client);
+        let mut bytes = vec![];
+        for j in 0..n { let q = mk_query(0x6800 + j as u16, 1, &[3, 2], 1, None); bytes.push(0); bytes.push(q.len() as u8); bytes.extend_from_slice(&q); }
+        let writer = tokio::spawn(async move { let _ = wr.write_all(&bytes).await; wr });
+        let quiet = Duration::from_millis(wt_ms + 4000);
+        let mut ids = std::collections::HashSet::new();
+        let mut frames = 0usize;
+        let mut closed = false;
+        while frames < n {
+            let mut l = [0u8; 2];
+            match tokio::time::timeout(quiet, rd.read_exact(&mut l)).await {
+                Ok(Ok(_)) => {}
+                Ok(Err(_)) => { closed = true; break; }
+                Err(_) => break,
+            }
+            let mut m = vec![0u8; ((l[0] as usize) << 8) | l[1] as usize];
+            match tokio::time::timeout(quiet, rd.read_exact(&mut m)).await {
+                Ok(Ok(_)) => {}
+                Ok(Err(_)) => { closed = true; break; }
+                Err(_) => break,
+            }
+            frames += 1;
+            if m.len() >= 2 { ids.insert(((m[0] as u16) << 8) | m[1] as u16); }
+            tokio::time::sleep(Duration::from_millis(pause_ms)).await;
+        }
+        let answered = (0..n).filter(|j| ids.contains(&(0x6800 + *j as u16))).count();
+        writer.abort();
+        let _ = srv.shutdown();
+        (answered, closed, frames, t0.elapsed().as_secs_f64())
+    })
 }
 
 /// many requests written at once on one connection: every one must be answered
